@@ -2,6 +2,7 @@ import XtModel.Lemmas.TomlOrder
 import XtModel.Props.C11
 import XtModel.Props.C18
 import XtModel.Props.Json
+import XtModel.Props.Fidelity
 
 /-!
 # C01 — Cross-format value fidelity
@@ -13,6 +14,14 @@ C11 and C18 and re-exported here once those slices are merged.)
 
 Obligations: `toml_reorder_groups`, `toml_reorder_stable`, `toml_reorder_keys_perm`,
 `toml_reorder_idempotent`, `toml_written_eq_reorder_partial`, `toml_k4_counterexample`.
+
+The fidelity theorem for the pairs JSON → MessagePack and MessagePack → JSON
+(end-to-end composition of the JSON, MessagePack and transcoder models) is in
+`Props/Fidelity.lean` (`Xt.Props.Fidelity.*`, listed by absolute name in
+`props/C01.py`): `json_to_msgpack_fidelity` (+ `_documents`, `_floats`),
+`msgpack_to_json_fidelity` (+ `_floatfree`, `msgpack_to_json_output`),
+`non_minimal_spellings_irrelevant`, `int_width_irrelevant`,
+`unrepresentable_is_error`, `bridge_refines_transcoder`.
 -/
 namespace Xt.Props.C01
 open Xt.TomlOrder
@@ -105,5 +114,22 @@ example : reorder (.tbl [(1, .tbl []), (2, .scalar 0)]) = .tbl [(2, .scalar 0), 
 #print axioms Xt.Props.Json.json_roundtrip
 #print axioms Xt.Props.Json.json_roundtrip_floats
 #print axioms Xt.Props.Json.json_spellings_partial
+
+#print axioms Xt.Props.Fidelity.bridge_refines_transcoder
+#print axioms Xt.Props.Fidelity.int_width_irrelevant
+#print axioms Xt.Props.Fidelity.non_minimal_spellings_irrelevant
+#print axioms Xt.Props.Fidelity.m2j_slice_answer_eq_reader
+#print axioms Xt.Props.Fidelity.unrepresentable_is_error
+#print axioms Xt.Props.Fidelity.bin_value_becomes_array
+#print axioms Xt.Props.Fidelity.failing_document_streamed
+#print axioms Xt.Props.Fidelity.json_to_msgpack_fidelity
+#print axioms Xt.Props.Fidelity.json_to_msgpack_fidelity_of_wf
+#print axioms Xt.Props.Fidelity.json_to_msgpack_fidelity_documents
+#print axioms Xt.Props.Fidelity.json_to_msgpack_fidelity_floats
+#print axioms Xt.Props.Fidelity.five_stays_integer
+#print axioms Xt.Props.Fidelity.minus_zero_is_float
+#print axioms Xt.Props.Fidelity.msgpack_to_json_output
+#print axioms Xt.Props.Fidelity.msgpack_to_json_fidelity
+#print axioms Xt.Props.Fidelity.msgpack_to_json_fidelity_floatfree
 
 end Xt.Props.C01
